@@ -154,8 +154,29 @@ func (sc *scen) alter(d time.Duration) bool {
 
 // write sends one point; it becomes part of the model only if acknowledged (204).
 func (sc *scen) write(rp, role string, t int64, S time.Duration) *point {
+	return sc.writeK(rp, role, t, S, "a")
+}
+
+// lateSeries writes further series into the shard group of p some retention cycles after
+// the group came into being: their points hash to other partitions, whose shards of that
+// group exist in the catalogue but are opened by the engine only now.
+func (sc *scen) lateSeries(p *point) {
+	if p == nil {
+		return
+	}
+	sc.observeFor(3 * time.Second)
+	for i, k := range []string{"b", "c", "d", "e"} {
+		t := p.T + int64(i+1)
+		if t >= p.GE {
+			t = p.T - int64(i+1)
+		}
+		sc.writeK(p.RP, "late-series", t, sc.S, k)
+	}
+}
+
+func (sc *scen) writeK(rp, role string, t int64, S time.Duration, k string) *point {
 	sc.nval++
-	body := fmt.Sprintf("m,k=a v=%di %d", sc.nval, t)
+	body := fmt.Sprintf("m,k=%s v=%di %d", k, sc.nval, t)
 	var w0, w1 time.Time
 	var r proc.WriteResult
 	for try := 0; try < 4; try++ {
@@ -404,6 +425,7 @@ func (sc *scen) run() {
 			return
 		}
 		xOld := sc.xOf(sc.p1, sc.curD())
+		sc.lateSeries(sc.p1)
 		sc.observeUntil(sc.T0.Add(time.Duration(sp.AlterAt) * time.Second))
 		d := sc.curD() + 3*time.Hour
 		if sp.AlterTo == "unlimited" {
